@@ -11,7 +11,7 @@
 From Coq Require Import List ZArith NArith Bool Lia.
 From NV Require Import Bytes GenConsts CLite CLiteProps GenCFuncs CLiteTac CLiteExt TrLbufBase UndoDefs UndoProps TrUndoBase TrUndo TrUndoOpt TrUndoEdit.
 From NV Require Import TrLbufMarks TrSplice TrSpliceMarks TrSpliceAll TrSpliceModels TrCmp4Str TrCmp4Rep TrCmp4 TrCmp4Loop.
-From NV Require IoDefs TrLbuf.
+From NV Require IoDefs IoProps TrLbuf.
 Import ListNotations.
 Local Open Scope Z_scope.
 
@@ -255,3 +255,116 @@ Section Chain.
     rewrite Hln3. unfold lb1, lbuf_edit, edit_text. fold b' e'. rewrite Hcase. reflexivity.
   Qed.
 End Chain.
+
+(* ------------------------------------------------------------------ undo_ok / redo_ok of the chain follow from the ranges of the edit *)
+Lemma undo_fits_one lb : one_undo lb ->
+  (let lo := nth (hist_u lb - 1) (hist lb) dflt in splice_ok (set_hu lb (hist_u lb - 1)) (del lo) (pos lo) (n_ins lo)) -> undo_ok lb.
+Proof.
+  intros (Hu & Hone) Hok. unfold undo_ok. destruct (hist_u lb) as [|u] eqn:Eu; [lia|]. cbn [undo_fits]. rewrite Eu.
+  change (Nat.ltb 0 (S u)) with true. cbn [andb]. rewrite Z.eqb_refl. split; [exact Hok|].
+  destruct u as [|u]; [exact I|]. cbn [undo_fits].
+  assert (H1 : hist_u (undo1 lb) = S u) by (unfold undo1; rewrite Eu; cbn [lbuf_replace set_ln set_hu hist_u]; lia).
+  assert (H2 : hist (undo1 lb) = hist lb) by reflexivity.
+  rewrite H1, H2. replace (S (S u) - 1)%nat with (S u) by lia.
+  change (Nat.ltb 0 (S u)) with true. cbn [andb]. replace (S u - 1)%nat with u by lia.
+  destruct Hone as [X|X]; [lia|]. replace (S (S u) - 2)%nat with u in X by lia. replace (S (S u) - 1)%nat with (S u) in X by lia.
+  destruct (Z.eqb_spec (seq_at (hist lb) u) (seq_at (hist lb) (S u))); [contradiction|exact I].
+Qed.
+Lemma redo_fits_one lb : one_redo lb ->
+  (let lo := nth (hist_u lb) (hist lb) dflt in splice_ok (set_hu lb (S (hist_u lb))) (ins lo) (pos lo) (n_del lo)) -> redo_ok lb.
+Proof.
+  intros (Hu & Hone) Hok. unfold redo_ok. destruct (length (hist lb) - hist_u lb)%nat as [|k] eqn:Ek; [lia|]. cbn [redo_fits].
+  destruct (Nat.ltb_spec (hist_u lb) (length (hist lb))); [|lia]. cbn [andb]. rewrite Z.eqb_refl. split; [exact Hok|].
+  destruct k as [|k]; [exact I|]. cbn [redo_fits].
+  assert (H1 : hist_u (redo1 lb) = S (hist_u lb)) by reflexivity.
+  assert (H2 : hist (redo1 lb) = hist lb) by reflexivity.
+  rewrite H1, H2.
+  destruct (Nat.ltb_spec (S (hist_u lb)) (length (hist lb))); [|exact I]. cbn [andb].
+  destruct Hone as [X|X]; [lia|].
+  destruct (Z.eqb_spec (seq_at (hist lb) (S (hist_u lb))) (seq_at (hist lb) (hist_u lb))); [contradiction|exact I].
+Qed.
+
+Lemma edit_undo_redo_ok lb buf b e : Forall line_wf (ln lb) -> (hist_u lb <= length (hist lb))%nat -> lone_edit lb ->
+  let b' := Nat.min b (length (ln lb)) in let e' := Nat.min e (length (ln lb)) in
+  (b <= e)%nat -> Nat.eqb b' e' && is_none buf = false -> i31 (length (ln lb) + linecount buf) ->
+  let lb1 := lbuf_edit lb buf b e in undo_ok lb1 /\ redo_ok (undo1 lb1).
+Proof.
+  intros Hwf Hu Hlone b' e' Hbe Hcase Hi lb1.
+  destruct (edit_then_undo_redo lb buf b e Hwf Hu Hlone Hbe Hcase) as (lb2 & lb3 & _ & Hln2 & _ & _ & Hone & Honer & Hh2 & Hu2 & Hh1 & Hu1 & E2 & _).
+  fold b' e' lb1 in Hone, Hh2, Hh1, Hu1, E2. subst lb2.
+  set (n := length (ln lb)) in *. set (nd := (e' - b')%nat) in *. set (u := hist_u lb) in *. set (lo := new_entry lb buf b' nd) in *.
+  assert (Lf : length (firstn u (hist lb)) = u) by (rewrite firstn_length; lia).
+  assert (Hlo : nth u (hist lb1) dflt = lo) by (rewrite Hh1, app_nth2 by lia; rewrite Lf, Nat.sub_diag; reflexivity).
+  assert (Hbn : (b' + nd <= n)%nat) by (unfold nd, b', e'; lia).
+  assert (Hl1 : length (ln lb1) = (n + linecount buf - nd)%nat).
+  { unfold lb1, lbuf_edit. fold n b' e'. rewrite Hcase. cbn [lbuf_replace set_ln lbuf_opt ln]. fold nd. rewrite replace_length by (fold n; lia). reflexivity. }
+  assert (Hdl : linecount (del lo) = nd).
+  { unfold linecount, lo, new_entry. cbn [del]. destruct (Nat.eqb_spec nd 0) as [->|Hnz]; [reflexivity|].
+    cbn [lines_opt]. unfold lbuf_cp. replace (b' + nd - b')%nat with nd by lia. rewrite lines_of_concat.
+    - apply slice_length. fold n. lia.
+    - unfold slice. apply Forall_firstn'. apply Forall_skipn'. exact Hwf. }
+  split.
+  - apply (undo_fits_one lb1 Hone). rewrite Hu1. replace (S u - 1)%nat with u by lia. rewrite Hlo. cbv zeta.
+    unfold splice_ok. cbn [set_hu ln]. rewrite Hl1, Hdl. unfold lo, new_entry. cbn [pos n_ins]. unfold i31 in *. split; lia.
+  - apply (redo_fits_one (undo1 lb1) Honer). rewrite Hu2, Hh2, Hlo. cbv zeta. unfold splice_ok. cbn [set_hu ln]. rewrite Hln2. fold n.
+    unfold lo, new_entry. cbn [pos n_del ins]. split; [lia|exact Hi].
+Qed.
+
+(* the corollary with undo_ok / redo_ok derived *)
+Theorem tr_undo_inverts_edit_ranges ext fuelR dR (Hext : ext_is_replace ext fuelR dR) d fuel (m : mem) bl (blk : block) bh (hblk : block) lb (bufv : val) buf b e cap0 cap' :
+  cp_oracle ext Tc bl -> urep Tc m bl blk bh hblk lb -> bufarg m bl bh bufv buf ->
+  (forall bb o, bufv = VPtr bb o -> ~ In bb (log_blocks hblk 0 (length (hist lb)))) ->
+  (forall bb o fp, bufv = VPtr bb o -> Tc m (tcells blk) fp (ln lb) -> ~ In bb fp) ->
+  (forall bb s o, bufv = VPtr bb o -> str_at m bb s -> Z.of_nat (length s) + 2 <= 2147483647) ->
+  (b <= e)%nat -> i31 e -> i31 (length (ln lb) + linecount buf) -> Z.of_nat (hist_sz lb) * 2 <= 2147483647 ->
+  (length (hist lb) + 35 < fuel)%nat -> (linecount buf < fuel)%nat ->
+  let b' := Nat.min b (length (ln lb)) in let e' := Nat.min e (length (ln lb)) in
+  let need := Z.of_nat (length (ln lb)) + Z.of_nat (linecount buf) - Z.of_nat (e' - b') in
+  nth_error blk L_ln_sz = Some (VInt (Z.of_nat cap0)) -> IoDefs.grow (IoDefs.grow_fuel need) need (Z.of_nat cap0) = Some cap' -> cap' <= 2147483647 ->
+  (splice_fuel (length (ln lb)) (linecount buf) (e' - b') <= fuelR)%nat ->
+  (forall (m1 : mem) (blk1 : block),
+     callx ext cprog fuel (S (S (S (S d)))) F_lbuf_opt [VPtr bl 0; bufv; VInt (Z.of_nat b'); VInt (Z.of_nat (e' - b'))] m = Ok (VUndef, m1) ->
+     nth_error m1 bl = Some blk1 ->
+     forall k, (k < 32)%nat -> exists z, nth_error blk1 k = Some (VInt z) /\ row_fits (Z.of_nat b') (Z.of_nat (e' - b')) (Z.of_nat (linecount buf)) z) ->
+  Nat.eqb b' e' && is_none buf = false -> lone_edit lb -> Forall line_wf (ln lb) ->
+  let lb1 := lbuf_edit lb buf b e in let lb2 := undo1 lb1 in
+  (forall m1, callx ext cprog fuel (S (S (S (S (S d))))) F_lbuf_edit [VPtr bl 0; bufv; VInt (Z.of_nat b); VInt (Z.of_nat e)] m = Ok (VUndef, m1) ->
+     let lo := nth (hist_u lb1 - 1) (hist lb1) dflt in step_ok fuelR bl m1 (length (ln lb1)) (del lo) (pos lo) (n_ins lo)) ->
+  (forall m1 m2, callx ext cprog fuel (S (S (S (S (S d))))) F_lbuf_edit [VPtr bl 0; bufv; VInt (Z.of_nat b); VInt (Z.of_nat e)] m = Ok (VUndef, m1) ->
+     callx ext cprog fuel (S (S (S (S d)))) F_lbuf_undo [VPtr bl 0] m1 = Ok (VInt 0, m2) ->
+     let lo := nth (hist_u lb2) (hist lb2) dflt in step_ok fuelR bl m2 (length (ln lb2)) (ins lo) (pos lo) (n_del lo)) ->
+  exists (m1 m2 m3 : mem) (blk2 blk3 : block) bh' (hblk' : block),
+    callx ext cprog fuel (S (S (S (S (S d))))) F_lbuf_edit [VPtr bl 0; bufv; VInt (Z.of_nat b); VInt (Z.of_nat e)] m = Ok (VUndef, m1) /\
+    callx ext cprog fuel (S (S (S (S d)))) F_lbuf_undo [VPtr bl 0] m1 = Ok (VInt 0, m2) /\
+    callx ext cprog fuel (S (S (S (S d)))) F_lbuf_redo [VPtr bl 0] m2 = Ok (VInt 0, m3) /\
+    urep Tc m2 bl blk2 bh' hblk' lb2 /\ ln lb2 = ln lb /\
+    urep Tc m3 bl blk3 bh' hblk' (redo1 lb2) /\ ln (redo1 lb2) = edit_text (ln lb) buf b e.
+Proof.
+  intros HC R Hbuf Hnb Hout Hlen2 Hbe Hie Hin Hsz2 Hf1 Hf2 b' e' need Ccap Hgrow Hcap' HfR Hmarks Hcase Hlone Hwf lb1 lb2 Hobs1 Hobs2.
+  pose proof (u_rng _ _ _ _ _ _ _ R) as (_ & (Hu & _) & _).
+  destruct (edit_undo_redo_ok lb buf b e Hwf Hu Hlone Hbe Hcase Hin) as [O1 O2].
+  exact (tr_undo_inverts_edit ext fuelR dR Hext d fuel m bl blk bh hblk lb bufv buf b e cap0 cap' HC R Hbuf Hnb Hout Hlen2 Hbe Hie Hin Hsz2 Hf1 Hf2
+           Ccap Hgrow Hcap' HfR Hmarks Hcase Hlone Hwf O1 O2 Hobs1 Hobs2).
+Qed.
+
+(* ------------------------------------------------------------------ a sufficient condition for `fits` that does not mention the growth loop *)
+Lemma grow_le : forall f need sz sz', 0 < sz -> IoDefs.grow f need sz = Some sz' -> sz' <= Z.max sz (2 * need).
+Proof.
+  induction f as [|f IH]; intros need sz sz' Hsz H; cbn [IoDefs.grow] in H; [discriminate|].
+  destruct (Z.geb_spec need sz) as [G|G].
+  - destruct (Z.eqb_spec sz 0); [lia|]. apply IH in H; lia.
+  - injection H as <-. lia.
+Qed.
+Lemma fits_of_bounds (blk : block) n s p nd cap : (nd <= n)%nat ->
+  (forall k, (k < 32)%nat -> exists z, nth_error blk k = Some (VInt z) /\ i32 z /\ z + Z.of_nat (linecount s) <= 2147483647) ->
+  nth_error blk L_ln_sz = Some (VInt (Z.of_nat cap)) -> (0 < cap)%nat -> Z.of_nat cap <= 2147483647 ->
+  2 * (Z.of_nat n + Z.of_nat (linecount s)) <= 2147483647 ->
+  exists cap', fits blk n s p nd cap'.
+Proof.
+  intros Hnd Hmk Hc Hc0 Hcm Hn.
+  set (need := Z.of_nat n + Z.of_nat (linecount s) - Z.of_nat nd).
+  destruct (IoProps.grow_total need (Z.of_nat cap) ltac:(lia)) as (cap' & G & G1 & G2).
+  exists cap'. split; [|split; [exists cap; split; [exact Hc|exact G]|]].
+  - intros k Hk. destruct (Hmk k Hk) as (z & Hz & Iz & Bz). exists z. split; [exact Hz|]. split; [exact Iz|]. intro X. unfold i32 in *. lia.
+  - assert (Hp : 0 < Z.of_nat cap) by lia. pose proof (grow_le _ _ _ _ Hp G). unfold need in *. lia.
+Qed.
